@@ -117,7 +117,9 @@ def op_cli(op):
     outp = "/simfs/out.b09"
     argv = list(op["flags"])
     use_stdin, use_stdout = bool(op.get("stdin")), bool(op.get("stdout"))
-    w = World(stdin_data=op["text"].encode("utf-8") if use_stdin else None)
+    # the simulated process's working directory mirrors this tool process's (skewed) one
+    w = World(stdin_data=op["text"].encode("utf-8") if use_stdin else None,
+              vcwd="/simfs/cwd" + os.getcwd().rstrip("/"))
     with w:
         if not use_stdin:
             w.fs.put(inp, op["text"].encode("utf-8"))
@@ -142,6 +144,8 @@ OPS = {"convert": op_convert, "cli": op_cli, "decode": op_decode}
 
 
 def main():
+    from sim import decsim
+    decsim.VCWD_OF_PROCESS = "/simfs/cwd" + os.getcwd().rstrip("/")
     deccheck.warm()
     import coco.b09.compiler  # noqa
     import coco.decb_to_b09  # noqa
